@@ -2548,8 +2548,13 @@ namespace bloch::runtime {
                     m_lastMeasurement[q.qubit] = bit;
             }
         } else if (auto destroy = dynamic_cast<DestroyStatement*>(s)) {
+            // What 'destroy x' leaves in x is a null reference ('x == null' holds, a member
+            // access is a "null reference" error), not a value of no type at all.
+            Value nullRef;
+            nullRef.type = Value::Type::Object;
+            nullRef.objectValue = nullptr;
             if (auto var = dynamic_cast<VariableExpression*>(destroy->target.get())) {
-                assign(var->name, {});
+                assign(var->name, nullRef);
                 requestGc();
             } else if (auto mem = dynamic_cast<MemberAccessExpression*>(destroy->target.get())) {
                 Value obj = eval(mem->object.get());
@@ -2559,7 +2564,7 @@ namespace bloch::runtime {
                                               : nullptr;
                     if (field) {
                         if (field->offset < obj.objectValue->fields.size())
-                            obj.objectValue->fields[field->offset] = {};
+                            obj.objectValue->fields[field->offset] = nullRef;
                         requestGc();
                     }
                 }
